@@ -6,7 +6,8 @@ cpu_count.  Loop-free: every obligation is decided for all integers n_jobs and a
 import z3
 
 from pyvc import ops
-from pyvc.contracts import Contract
+from pyvc.contracts import Contract, SourceModule
+from pyvc.interp import PyRaise
 from pyvc.pack import Pack
 from pyvc.values import (
     BOOL, INT, REAL, STR, Atom, ClassRef, ObjOf, OneOf, Opaque, OpaqueOf, Opt, PyDict, PyList, SExc, SObj, Sym,
@@ -296,6 +297,45 @@ def build():
             "honours_loky_max": "implies(LOKYMAX is not None and LOKYMAX >= 1 and not only_physical_cores, result <= LOKYMAX)",
             "honours_user_physical": "implies(only_physical_cores and ret__cpu_count_user >= 1 and ret__cpu_count_user < (OS if OS is not None and OS != 0 else 1), result <= ret__cpu_count_user)",
         },
+    ))
+    # ---------------------------------------------------------------- Parallel._initialize_backend: the fallback chain
+    # configure() either returns the number of workers or raises FallbackToBackend(other): then `other` becomes the backend of the object and
+    # is configured in turn with the same settings (the recursive call is inlined; shape-bounded: the backend fallen back to accepts - the built-in
+    # chains are loky/multiprocessing/threading -> sequential).
+    # What the caller gets is the worker count of the backend that finally accepted - C15 relies on it for "1 runs in the calling thread"
+    # (a backend asked for one worker falls back to SequentialBackend) and C17 for the thread / sequential fallbacks of nested calls.
+    def be_configure(interp, recv, args, kwargs):
+        ctx = interp.ctx
+        g = ctx.ghost
+        ctx.events.append(("configure", recv, kwargs.get("n_jobs"), kwargs.get("parallel"), PyDict({k: v for k, v in kwargs.items() if k not in ("n_jobs", "parallel")})))
+        if recv.attrs.get("may_fall_back") and ctx.choose(2, "configure:falls-back") == 1:
+            other = Opaque("cfgbackend", ctx.fresh_name("fallback"), may_fall_back=False, supports_timeout=BOOL.fresh(ctx, "supports_timeout"))
+            other.attrs["__class__"] = Opaque("cls", None, __name__="SequentialBackend")
+            g["FALLBACK"] = other
+            cls = interp.global_lookup("FallbackToBackend", SourceModule.get(PAR))
+            raise PyRaise(SExc(cls, (other,), backend=other))
+        n = INT.fresh(ctx, "workers")
+        g["ACCEPTED_BY"] = recv
+        g["WORKERS"] = n
+        return n
+
+    p.models["cfgbackend.configure"] = be_configure
+    p.log_calls.add("warnings.warn")
+
+    def ib_backend(interp):
+        o = Opaque("cfgbackend", "first", may_fall_back=True, supports_timeout=BOOL.fresh(interp.ctx, "supports_timeout"))
+        o.attrs["__class__"] = Opaque("cls", None, __name__="SomeBackend")
+        return o
+
+    p.spec_funcs["accepted_by"] = lambda interp: interp.ctx.ghost.get("ACCEPTED_BY")
+    p.spec_funcs["workers"] = lambda interp: interp.ctx.ghost.get("WORKERS")
+    p.spec_funcs["cfg_events"] = lambda interp: tuple(e for e in interp.ctx.events if e[0] == "configure")
+    p.add(Contract(
+        PAR, "Parallel._initialize_backend", props=["C15", "C17"], inline={"_initialize_backend"},
+        params=dict(self=ObjOf("Parallel", _backend=ib_backend, n_jobs=OneOf(None, INT), timeout=Opt(REAL), _backend_kwargs=lambda i: PyDict({"mmap_mode": "r", "temp_folder": Opaque("folder", None)}))),
+        ensures={"workers_of_the_backend_that_accepted": "result is workers() and self._backend is accepted_by()",
+                 "every_backend_of_the_chain_gets_the_objects_settings": "all(e[2] is self.n_jobs and e[3] is self and e[4]['mmap_mode'] == 'r' and e[4]['temp_folder'] is self._backend_kwargs['temp_folder'] for e in cfg_events())",
+                 "a_fallback_is_configured_too": "len(cfg_events()) >= 1 and cfg_events()[-1][1] is self._backend"},
     ))
     return p
 
